@@ -29,7 +29,6 @@ var vfEventNames = [...]string{"*", "user", "query", "member-join", "member-leav
 //
 //vf:unwind 12
 //vf:bound inputs filter event from 9 names (all valid ones + an invalid one), filter name of 0..2 symbolic bytes; event: user event / query with a name of 0..2 symbolic bytes, or any of the 5 member events
-//vf:nonative
 func VfC27_Invoke() {
 	f := EventFilter{Event: vfEventNames[vfChoice("fevent", len(vfEventNames))], Name: vfString("fname", 2)}
 	var e serf.Event
@@ -66,7 +65,6 @@ func VfC27_Invoke() {
 //
 //vf:unwind 24
 //vf:bound inputs 1-2 comma separated items from {*, user, query, member-join, user:N, query:N, user:, N} with N one symbolic byte other than ',' ; or the empty specification
-//vf:nonative
 func VfC27_Parse() {
 	n := vfChoice("nitems", 3)
 	spec := ""
@@ -126,7 +124,6 @@ func VfC27_Parse() {
 //
 //vf:unwind 12
 //vf:bound inputs payload of 0..3 symbolic bytes
-//vf:nonative
 func VfC27_Payload() {
 	pl := vfBytes("payload", 3)
 	orig := append([]byte{}, pl...)
@@ -161,7 +158,6 @@ func vfCountByte(b []byte, c byte) int {
 //vf:paths quick=400000 thorough=4000000
 //vf:bound inputs 1 member; name of 0..2 symbolic bytes; role tag absent or 1 symbolic byte; one more tag with 1-symbolic-byte key and value
 //vf:stub net.IP.String -> real formatting of the concrete address
-//vf:nonative
 func VfC27_Line() {
 	m := serf.Member{Name: vfString("name", 2), Addr: net.IP{10, 0, 0, 1}, Tags: map[string]string{}}
 	if vfBool("hasRole") {
